@@ -36,7 +36,7 @@ def tokenize(lines):
         ("SKIP", r"\s+"),
         (
             "OTHER",
-            r"[,:;\-\?\+*%\[\]/\(\)]|<<|>>|!=|==|<=|>=|>|<|=|{|}|&|\^|\|",
+            r"[,:;\-\?\+*%\[\]/\(\)~]|<<|>>|!=|==|<=|>=|>|<|=|{|}|&|\^|\|",
         ),
     ]
     tok_re = "|".join(f"(?P<{name}>{pat})" for name, pat in tok_spec)
@@ -336,7 +336,11 @@ class Reader:
         self.consume("=")
         if self.peek == "ID":
             a = self.parse_id()
-            if self.peek in ir.Binop.ops:
+            if self.peek in ir.Binop.ops or (
+                # The rotate operators are words:
+                (self.at_keyword("rol") or self.at_keyword("ror"))
+                and a not in ("phi", "alloc", "load", "cast", "call", "literal")
+            ):
                 # Go for binop
                 op = self.consume(self.peek)[1]
                 b = self.parse_id()
@@ -389,9 +393,8 @@ class Reader:
             src = self.parse_value_ref(ty=ir.BlobDataTyp(1, 1))
             assert ty is ir.ptr
             ins = ir.AddressOf(src, name)
-        elif self.peek == "-":
-            self.consume("-")
-            operation = "-"
+        elif self.peek in ir.Unop.ops:
+            operation = self.consume(self.peek)[1]
             a = self.parse_value_ref(ty=ty)
             ins = ir.Unop(operation, a, name, ty)
         else:  # pragma: no cover
